@@ -24,7 +24,7 @@ THEOREMS = [
 ]
 RULE = (
     "operation histories over {tick, create, get, update activity, delete, cleanup(max_age), list+mutate, clear, "
-    "count, handle initialize, handle request with session id} on the real SessionManager/ProtocolHandler with "
+    "count, handle initialize (requested version supported / unsupported / malformed / empty / non-string / absent), handle request with session id} on the real SessionManager/ProtocolHandler with "
     "time.time patched to an integer clock: every word of length<=5 (quick) / <=6 (thorough) over the 8-symbol alphabet "
     "on slot 0, <=4 / <=5 over the 10-symbol one, <=3 / <=4 over the 20-symbol alphabet on slots 0..2, every word of "
     "length<=8 over the 5-symbol expiry core (thorough), plus seeded histories of length<=200; each step's output and the full store "
@@ -40,15 +40,20 @@ ASSUMPTIONS = [
     "time.time() does not advance between the reads made inside one operation (the patched clock only moves between operations)",
     "what is recorded as client info when initialize carries no clientInfo is not fixed by the property (masked on both sides)",
     "whether dispatch updates the activity of the carried session id is modelled (it does) but not demanded by the oracle, which only demands that dispatch changes nothing else",
-    "initialize is driven with supported protocol versions (or none) only; which version is answered is C04's subject — the model is fed the answered version observed in the response",
+    "initialize is driven with requested versions of every kind (supported, unsupported, malformed, empty, non-string, absent); WHICH version is answered is C04's subject — the oracle takes the answered version from the response (result.protocolVersion) and demands that the session records exactly that; the model is fed the observed answer policy (requested -> answered) as its `answer` function",
 ]
 
 SUPPORTED = ["2025-06-18", "2025-03-26", "2024-11-05"]
+# requested versions of every kind: unsupported dates, malformed, empty, non-string JSON values
+ODD_VERSIONS = ["1999-01-01", "2099-12-31", "garbage", "", " 2025-06-18", "2025-6-18", "2024-11-05\n", 123, 0, -1, 1.5,
+                True, False, None, ["2025-06-18"], [], {"v": "2025-06-18"}, {}]
 
 # ---- alphabets -----------------------------------------------------------------------------
 T1 = ["T", 1]
 C = ["C", {"name": "c", "version": "1"}, "2025-06-18"]
-I = ["I", None, {"client": {"name": "i"}, "version": "2024-11-05"}, 1]
+# the shared initialize symbol asks for a version the server does not support, so that the
+# requested and the answered version differ and "records the ANSWERED version" has content
+I = ["I", None, {"client": {"name": "i"}, "version": "1999-01-01"}, 1]
 L = ["L", "both"]
 K = ["K"]
 A8 = [T1, C, I, ["U", 0], ["D", 0], ["X", 1], L, ["R", 0, "ping", 7]]
@@ -109,8 +114,8 @@ def seeded(rng, maxlen):
             else:
                 if q < 0.85:
                     spec["client"] = rng.choice([{"name": "i%d" % issued, "version": "2"}, {}, None, rand_json(rng)])
-                if rng.random() < 0.8:
-                    spec["version"] = rng.choice(SUPPORTED)
+                if rng.random() < 0.85:
+                    spec["version"] = rng.choice(SUPPORTED) if rng.random() < 0.45 else rng.choice(ODD_VERSIONS)
             ops.append(["I", rng.choice([None, None, ref()]), spec, rng.choice([0, 1, -5, "", "abc", "7"])])
             issued += 1
         elif r < 0.48:
@@ -214,6 +219,15 @@ class Histories(Suite):
 
     def cases(self, ctx, budget):
         out = []
+        # directed: one initialize per kind of requested version (supported, unsupported, malformed,
+        # empty, non-string, absent), alone / after other sessions / carrying a session id, then looked up
+        for v in SUPPORTED + ODD_VERSIONS + ["<absent>"]:
+            spec = {"client": {"name": "d", "version": "0"}}
+            if v != "<absent>":
+                spec["version"] = v
+            out.append({"ops": [["I", None, spec, 1], ["G", 0], ["L", "none"]]})
+            out.append({"ops": [C, T1, ["I", 0, spec, "i"], ["G", 1], ["U", 1], T1, ["X", 1], ["G", 1]]})
+            out.append({"ops": [["I", None, dict(spec, version=SUPPORTED[1]), 0], ["I", 0, spec, ""], ["G", 1], ["G", 0]]})
         if budget == "quick":
             out += list(words(A8, 5)) + list(words(A10, 4)) + list(words(A20, 3))
             nseed, maxlen = 1200, 200
